@@ -22,7 +22,7 @@ def abs : Outcome → Spec.Res
   | .oof => .oof
   | .panic p s => .panic p (absW s)
   | .done v true s => .ok v s.pt (envOf s) (absW s)
-  | .done _ false s => .fail (absW s)
+  | .done _ false s => .fail (envOf s) (absW s)
 
 /-- states the parser can be in between expressions -/
 structure Good (E : Env) (s : PState) : Prop where
@@ -67,22 +67,331 @@ theorem absW_restoreState (E : Env) (s : PState) (st : Store) :
 @[simp] theorem ctxOf_bump (s : PState) : ctxOf (bump s) = ctxOf s := rfl
 @[simp] theorem envOf_bump (s : PState) : envOf (bump s) = envOf s := rfl
 
+@[simp] theorem envOf_restore (s : PState) (pt : Savepoint) : envOf (restore s pt) = envOf s := by simp [envOf]
+@[simp] theorem envOf_restoreState (E : Env) (s : PState) (st : Store) : envOf (restoreState E s st) = envOf s := by simp [envOf]
+@[simp] theorem envOf_incChoiceAlt (s : PState) (l c : Nat) (a : Option Nat) : envOf (incChoiceAlt s l c a) = envOf s := by simp [envOf]
+@[simp] theorem envOf_failAt (s : PState) (b : Bool) (p : Pos) (w : String) : envOf (failAt s b p w) = envOf s := by simp [envOf]
+@[simp] theorem envOf_setMemoized (s : PState) (p : Savepoint) (k : MemoKey) (t : MemoVal) : envOf (setMemoized s p k t) = envOf s := by simp [envOf]
+@[simp] theorem envOf_read (E : Env) (s : PState) : envOf (read E s) = envOf s := by simp [envOf]
+@[simp] theorem envOf_addErr (E : Env) (s : PState) (m : String) : envOf (addErr E s m) = envOf s := by simp [envOf]
+@[simp] theorem envOf_addErrOpt (E : Env) (s : PState) (o : Option String) : envOf (addErrOpt E s o) = envOf s := by simp [envOf]
+@[simp] theorem envOf_addErrAtOpt (E : Env) (s : PState) (o : Option String) (p : Pos) : envOf (addErrAtOpt E s o p) = envOf s := by simp [envOf]
+@[simp] theorem envOf_pushRecovery (s : PState) (l : List String) (r : Expr) : envOf (pushRecovery s l r) = envOf s := by simp [envOf]
+@[simp] theorem envOf_popRecovery (s : PState) : envOf (popRecovery s) = envOf s := by simp [envOf]
+
 theorem ctxOf_eq {s s' : PState} (h1 : s'.rstack = s.rstack) (h2 : s'.recoveryStack = s.recoveryStack) :
     ctxOf s' = ctxOf s := by unfold ctxOf; rw [h1, h2]
+
+theorem nextPt_rn_w (inp : List Nat) (pt : Savepoint) :
+    (nextPt inp pt).rn = (decodeRune (inp.drop (pt.pos.off + pt.w))).1 ∧
+    (nextPt inp pt).w = (decodeRune (inp.drop (pt.pos.off + pt.w))).2 := by
+  unfold nextPt; simp only []; split <;> exact ⟨rfl, rfl⟩
+
+/-- `read` in terms of the pure position function -/
+theorem read_eq (E : Env) (s : PState) :
+    read E s =
+      (if (nextPt E.input s.pt).rn = runeError ∧ (nextPt E.input s.pt).w = 1 ∧ E.opts.allowInvalid = false
+       then addErr E { s with pt := nextPt E.input s.pt } errInvalidEncoding
+       else { s with pt := nextPt E.input s.pt }) := by
+  obtain ⟨hr, hw⟩ := nextPt_rn_w E.input s.pt
+  rcases hd : decodeRune (E.input.drop (s.pt.pos.off + s.pt.w)) with ⟨rn, n⟩
+  rw [hd] at hr hw
+  simp only [] at hr hw
+  have hpt : ({ pos := { line := (if rn = 10 then (s.pt.pos.line + 1, 0) else (s.pt.pos.line, s.pt.pos.col + 1)).1,
+                         col := (if rn = 10 then (s.pt.pos.line + 1, 0) else (s.pt.pos.line, s.pt.pos.col + 1)).2,
+                         off := s.pt.pos.off + s.pt.w }, rn := rn, w := n } : Savepoint) = nextPt E.input s.pt := by
+    unfold nextPt; simp only [hd]; split <;> rfl
+  unfold read
+  simp only [hd, hpt, hr, hw]
+  by_cases h1 : rn = runeError <;> by_cases h2 : n = 1 <;> by_cases h3 : E.opts.allowInvalid = true <;> simp [h1, h2, h3]
 
 /-- `read` as the specification's `advance` -/
 theorem read_advance (E : Env) (s : PState) :
     ((read E s).pt, absW (read E s)) = Spec.advance E (ctxOf s) s.pt (absW s) := by
-  have hpt := read_pt E s
+  rw [read_eq]
   unfold Spec.advance
-  rw [← hpt]
-  unfold read
-  rcases hd : decodeRune (E.input.drop (s.pt.pos.off + s.pt.w)) with ⟨rn, n⟩
   simp only []
-  by_cases h1 : rn = runeError <;> by_cases h2 : n = 1 <;> by_cases h3 : E.opts.allowInvalid = true <;>
-    by_cases h4 : rn = 10 <;>
-    simp [h1, h2, h3, h4, addErr, addErrAt, absW, Spec.addErrAt, Spec.errPrefix, errPrefix, ctxOf, errInvalidEncoding] <;>
-    (try (cases s.rstack <;> simp))
+  by_cases h1 : (nextPt E.input s.pt).rn = runeError <;> by_cases h2 : (nextPt E.input s.pt).w = 1 <;>
+    by_cases h3 : E.opts.allowInvalid = true <;>
+    simp [h1, h2, h3, addErr, addErrAt, absW, Spec.addErrAt, Spec.errPrefix, errPrefix, ctxOf, errInvalidEncoding] <;>
+    (cases s.rstack <;> simp)
 
+
+section
+variable {E : Env} {rec : Expr → PState → Outcome}
+variable {srec : Spec.Ctx → Expr → List (String × Val) → Savepoint → Spec.World → Spec.Res}
+
+theorem Good.of_framed {s s1 : PState} {ok : Bool} (hg : Good E s) (h : Framed E s ok s1) : Good E s1 := by
+  refine ⟨?_, h.stk.ptinv hg.ptinv, h.memo⟩
+  intro hnil
+  have := h.stk.vlen
+  rw [hnil] at this
+  exact hg.vne (List.length_eq_zero_iff.mp this.symm)
+
+theorem Framed.fail_pt {s s1 : PState} (hg : Good E s) (h : Framed E s false s1) : s1.pt = s.pt :=
+  Reach.unique (h.stk.ptinv hg.ptinv).1 hg.ptinv.1 (h.failOff rfl)
+
+theorem Framed.ctx {s s1 : PState} {ok : Bool} (h : Framed E s ok s1) : ctxOf s1 = ctxOf s :=
+  ctxOf_eq h.stk.rstack h.stk.recov
+
+/-- everything that is known about one recursive call -/
+def CallFacts (E : Env) (srec : Spec.Ctx → Expr → List (String × Val) → Savepoint → Spec.World → Spec.Res)
+    (e : Expr) (s : PState) (o : Outcome) : Prop :=
+  match o with
+  | .oof => srec (ctxOf s) e (envOf s) s.pt (absW s) = .oof
+  | .panic p s1 => srec (ctxOf s) e (envOf s) s.pt (absW s) = .panic p (absW s1)
+  | .done v true s1 =>
+    srec (ctxOf s) e (envOf s) s.pt (absW s) = .ok v s1.pt (envOf s1) (absW s1) ∧ Framed E s true s1 ∧ Good E s1
+  | .done v false s1 =>
+    srec (ctxOf s) e (envOf s) s.pt (absW s) = .fail (envOf s1) (absW s1) ∧ Framed E s false s1 ∧ Good E s1 ∧ s1.pt = s.pt
+
+theorem call_facts (hp : Plain E) (hfr : ∀ e s, FrameInv E s (rec e s)) (href : Refines E rec srec)
+    (e : Expr) (s : PState) (hg : Good E s) : CallFacts E srec e s (parseExprWrap E rec e s) := by
+  rw [wrap_eq hp.nomemo]
+  have h1 := href e s hg
+  have h2 := hfr e s hg.memo
+  revert h1 h2
+  generalize rec e s = o
+  cases o with
+  | oof => intro h1 _; exact h1.symm
+  | panic p s1 => intro h1 _; exact h1.symm
+  | done v ok s1 =>
+    cases ok with
+    | true => intro h1 h2; exact ⟨h1.symm, h2, hg.of_framed h2⟩
+    | false => intro h1 h2; exact ⟨h1.symm, h2, hg.of_framed h2, h2.fail_pt hg⟩
+
+theorem ref_seq (hp : Plain E) (hfr : ∀ e s, FrameInv E s (rec e s)) (href : Refines E rec srec)
+    (c : Spec.Ctx) (pt0 : Savepoint) (st0 : Store) :
+    ∀ (es : List Expr) (s : PState) (acc : List Val), Good E s → ctxOf s = c →
+      abs (parseSeq E rec pt0 st0 es s acc) = Spec.evalSeq E srec c st0 es (envOf s) s.pt (absW s) acc
+  | [], s, acc, _, _ => by simp [parseSeq, Spec.evalSeq, abs]
+  | e :: es, s, acc, hg, hc => by
+    unfold parseSeq Spec.evalSeq
+    have hcf := call_facts hp hfr href e s hg
+    revert hcf
+    generalize parseExprWrap E rec e s = o
+    cases o with
+    | oof => intro h; simp only [CallFacts, hc] at h; simp [Outcome.bind, abs, h]
+    | panic p s1 => intro h; simp only [CallFacts, hc] at h; simp [Outcome.bind, abs, h]
+    | done v ok s1 =>
+      cases ok with
+      | true =>
+        intro ⟨h1, h2, h3⟩
+        rw [hc] at h1
+        simp only [Outcome.bind, h1, if_true]
+        exact ref_seq hp hfr href c pt0 st0 es s1 (v :: acc) h3 (h2.ctx.trans hc)
+      | false =>
+        intro ⟨h1, _, _, _⟩
+        rw [hc] at h1
+        simp [Outcome.bind, h1, abs, absW_restoreState]
+
+
+theorem Good.congr {s s' : PState} (hg : Good E s) (hv : s'.vstack = s.vstack) (hpt : s'.pt = s.pt)
+    (hm : s'.memo = s.memo) : Good E s' :=
+  ⟨hv ▸ hg.vne, hg.ptinv.congr hpt hm, hg.memo.congr hm⟩
+
+theorem Good.pushV {s : PState} (hg : Good E s) : Good E (pushV s) :=
+  ⟨by simp, hg.ptinv.congr (by simp) (by simp), hg.memo.congr (by simp)⟩
+
+theorem popV_vstack_of_framed {s s1 : PState} {ok : Bool} (h : Framed E (RT.pushV s) ok s1) :
+    (popV s1).vstack = s.vstack := by
+  have := h.stk.vtail
+  simpa using this
+
+theorem Good.pop {s s1 : PState} {ok : Bool} (hg : Good E s) (h : Framed E (RT.pushV s) ok s1) : Good E (popV s1) :=
+  ⟨by rw [popV_vstack_of_framed h]; exact hg.vne,
+   (h.stk.ptinv (hg.ptinv.congr (by simp) (by simp))).congr (by simp) (by simp), h.memo.congr (by simp)⟩
+
+theorem envOf_pop {s s1 : PState} {ok : Bool} (h : Framed E (RT.pushV s) ok s1) : envOf (popV s1) = envOf s := by
+  unfold envOf; rw [popV_vstack_of_framed h]
+
+theorem ctxOf_pop {s s1 : PState} {ok : Bool} (h : Framed E (RT.pushV s) ok s1) : ctxOf (popV s1) = ctxOf s := by
+  have h1 := h.stk.rstack; have h2 := h.stk.recov
+  simp at h1 h2
+  exact ctxOf_eq (by simpa using h1) (by simpa using h2)
+
+theorem ref_choice (hp : Plain E) (hfr : ∀ e s, FrameInv E s (rec e s)) (href : Refines E rec srec)
+    (c : Spec.Ctx) (line col : Nat) :
+    ∀ (alts : List Expr) (i : Nat) (s : PState), Good E s → ctxOf s = c →
+      abs (parseChoice E rec line col alts i s) = Spec.evalChoice E srec c alts (envOf s) s.pt (absW s)
+  | [], i, s, _, _ => by simp [parseChoice, Spec.evalChoice, abs]
+  | alt :: alts, i, s, hg, hc => by
+    unfold parseChoice Spec.evalChoice
+    simp only []
+    have hcf := call_facts hp hfr href alt (pushV s) hg.pushV
+    revert hcf
+    generalize parseExprWrap E rec alt (pushV s) = o
+    cases o with
+    | oof => intro h; simp only [CallFacts, ctxOf_pushV, envOf_pushV, absW_pushV, pushV.pt, hc] at h; simp [Outcome.bind, abs, h]
+    | panic p s1 => intro h; simp only [CallFacts, ctxOf_pushV, envOf_pushV, absW_pushV, pushV.pt, hc] at h; simp [Outcome.bind, abs, h]
+    | done v ok s1 =>
+      cases ok with
+      | true =>
+        intro ⟨h1, h2, _⟩
+        simp only [ctxOf_pushV, envOf_pushV, absW_pushV, pushV.pt, hc] at h1
+        simp only [Outcome.bind, h1, if_true, abs]
+        have he : envOf (incChoiceAlt (popV s1) line col (some i)) = envOf s := by
+          rw [← envOf_pop h2]; simp [envOf]
+        simp [he]
+      | false =>
+        intro ⟨h1, h2, _, h4⟩
+        simp only [ctxOf_pushV, envOf_pushV, absW_pushV, pushV.pt, hc] at h1 h4
+        simp only [Outcome.bind, h1, Bool.false_eq_true, if_false]
+        have hg' : Good E (RT.restoreState E (popV s1) s.state) :=
+          (hg.pop h2).congr (by simp) (by simp) (by simp)
+        have := ref_choice hp hfr href c line col alts (i + 1) _ hg'
+          ((ctxOf_eq (by simp) (by simp)).trans ((ctxOf_pop h2).trans hc))
+        rw [this]
+        have he : envOf (RT.restoreState E (popV s1) s.state) = envOf s := by
+          rw [← envOf_pop h2]; unfold envOf; simp
+        have hpt2 : (RT.restoreState E (popV s1) s.state).pt = s.pt := by simp [h4]
+        rw [he, hpt2, absW_restoreState, absW_popV]
+        rfl
+
+
+theorem ref_loop (hp : Plain E) (hfr : ∀ e s, FrameInv E s (rec e s)) (href : Refines E rec srec)
+    (c : Spec.Ctx) (e : Expr) :
+    ∀ (k : Nat) (s : PState) (acc : List Val), Good E s → ctxOf s = c →
+      abs (parseLoop E rec e k s acc) = Spec.evalLoop srec c e k (envOf s) s.pt (absW s) acc
+  | 0, _, _, _, _ => by simp [parseLoop, Spec.evalLoop, abs]
+  | k + 1, s, acc, hg, hc => by
+    unfold parseLoop Spec.evalLoop
+    simp only []
+    have hcf := call_facts hp hfr href e (pushV s) hg.pushV
+    revert hcf
+    generalize parseExprWrap E rec e (pushV s) = o
+    cases o with
+    | oof => intro h; simp only [CallFacts, ctxOf_pushV, envOf_pushV, absW_pushV, pushV.pt, hc] at h; simp [Outcome.bind, abs, h]
+    | panic p s1 => intro h; simp only [CallFacts, ctxOf_pushV, envOf_pushV, absW_pushV, pushV.pt, hc] at h; simp [Outcome.bind, abs, h]
+    | done v ok s1 =>
+      cases ok with
+      | true =>
+        intro ⟨h1, h2, _⟩
+        simp only [ctxOf_pushV, envOf_pushV, absW_pushV, pushV.pt, hc] at h1
+        simp only [Outcome.bind, h1, if_true]
+        have := ref_loop hp hfr href c e k (popV s1) (v :: acc) (hg.pop h2) ((ctxOf_pop h2).trans hc)
+        rw [this, envOf_pop h2]
+        rfl
+      | false =>
+        intro ⟨h1, h2, _, h4⟩
+        simp only [ctxOf_pushV, envOf_pushV, absW_pushV, pushV.pt, hc] at h1 h4
+        simp only [Outcome.bind, h1, Bool.false_eq_true, if_false]
+        split
+        · simp [abs, envOf_pop h2]
+        · simp only [abs, envOf_pop h2, absW_popV]
+          have : (popV s1).pt = s.pt := by simp [h4]
+          rw [this]
+
+/-- the literal loop: position and world after the literal, or a mismatch -/
+theorem ref_lit (c : Spec.Ctx) (start : Savepoint) (want : String) (ic : Bool) :
+    ∀ (rs : List Rune) (s : PState), ctxOf s = c →
+      match parseLit E start want ic rs s with
+      | .done v true s' => Spec.evalLit E c ic rs s.pt (absW s) = (some s'.pt, absW s') ∧
+          v = .bytes (Spec.slice E start s'.pt) ∧ envOf s' = envOf s
+      | .done _ false s' => Spec.evalLit E c ic rs s.pt (absW s) = (none, absW s') ∧ envOf s' = envOf s
+      | _ => False
+  | [], s, _ => by simp [parseLit, Spec.evalLit, sliceFrom, Spec.slice]
+  | r :: rs, s, hc => by
+    by_cases hcond : (decide (litCur E ic s ≠ r) || decide (s.pt.w = 0)) = true
+    · have h1 : parseLit E start want ic (r :: rs) s =
+          .done .nil false (restore (failAt s false start.pos want) start) := by
+        rw [parseLit]; simp only [hcond, if_true]
+      have h2 : Spec.evalLit E c ic (r :: rs) s.pt (absW s) = (none, absW s) := by
+        rw [Spec.evalLit]; simp only [litCur] at hcond; exact if_pos hcond
+      rw [h1]; simp [h2]
+    · have h1 : parseLit E start want ic (r :: rs) s = parseLit E start want ic rs (read E s) := by
+        rw [parseLit]; simp only [hcond, if_false, Bool.false_eq_true]
+      have hadv := read_advance E s
+      rw [hc] at hadv
+      have h2 : Spec.evalLit E c ic (r :: rs) s.pt (absW s) =
+          Spec.evalLit E c ic rs (read E s).pt (absW (read E s)) := by
+        rw [Spec.evalLit]; simp only [litCur] at hcond
+        simp only [← hadv]
+        exact if_neg hcond
+      rw [h1, h2]
+      have := ref_lit c start want ic rs (read E s) ((ctxOf_eq (by simp) (by simp)).trans hc)
+      revert this
+      generalize parseLit E start want ic rs (read E s) = o
+      cases o with
+      | oof => simp
+      | panic p s1 => simp
+      | done v ok s1 =>
+        cases ok <;> simp only [] <;> intro h1 <;> simp_all
+
+theorem ref_throw (hp : Plain E) (hfr : ∀ e s, FrameInv E s (rec e s)) (href : Refines E rec srec)
+    (c : Spec.Ctx) (label : String) :
+    ∀ (frames : List (List (String × Expr))) (s : PState), Good E s → ctxOf s = c →
+      abs (parseThrow E rec label frames s) = Spec.evalThrow srec c label frames (envOf s) s.pt (absW s)
+  | [], s, _, _ => by simp [parseThrow, Spec.evalThrow, abs]
+  | fr :: frs, s, hg, hc => by
+    unfold parseThrow Spec.evalThrow
+    cases hl : lookup label fr with
+    | none => simp only []; exact ref_throw hp hfr href c label frs s hg hc
+    | some r =>
+      simp only []
+      have hcf := call_facts hp hfr href r s hg
+      revert hcf
+      generalize parseExprWrap E rec r s = o
+      cases o with
+      | oof => intro h; simp only [CallFacts, hc] at h; simp [Outcome.bind, abs, h]
+      | panic p s1 => intro h; simp only [CallFacts, hc] at h; simp [Outcome.bind, abs, h]
+      | done v ok s1 =>
+        cases ok with
+        | true =>
+          intro ⟨h1, _, _⟩
+          rw [hc] at h1
+          simp [Outcome.bind, h1, abs]
+        | false =>
+          intro ⟨h1, h2, h3, h4⟩
+          rw [hc] at h1
+          simp only [Outcome.bind, h1, Bool.false_eq_true, if_false]
+          have := ref_throw hp hfr href c label frs s1 h3 (h2.ctx.trans hc)
+          rw [this, h4]
+
+
+/-! ### primitives -/
+
+theorem errPrefix_spec (s : PState) (pos : Pos) : errPrefix E s pos = Spec.errPrefix E (ctxOf s) pos := by
+  unfold errPrefix Spec.errPrefix ctxOf
+  cases s.rstack <;> rfl
+
+theorem absW_addErrAtOpt (s : PState) (o : Option String) (pos : Pos) :
+    absW (addErrAtOpt E s o pos) = Spec.addErrAt E (ctxOf s) (absW s) o pos := by
+  unfold addErrAtOpt Spec.addErrAt
+  cases o with
+  | none => rfl
+  | some m => simp [addErrAt, absW, errPrefix_spec]
+
+theorem absW_addErrOpt (s : PState) (o : Option String) :
+    absW (addErrOpt E s o) = Spec.addErrAt E (ctxOf s) (absW s) o s.pt.pos := by
+  unfold addErrOpt; exact absW_addErrAtOpt s o _
+
+theorem absW_addErr (s : PState) (m : String) :
+    absW (addErr E s m) = Spec.addErrAt E (ctxOf s) (absW s) (some m) s.pt.pos := by
+  simp [addErr, addErrAt, absW, Spec.addErrAt, errPrefix_spec]
+
+theorem callBlock_spec (blk : Nat) (s : PState) :
+    (callBlock E blk s).1 = (Spec.call E blk (envOf s) s.pt (absW s)).1 ∧
+    absW (callBlock E blk s).2 = (Spec.call E blk (envOf s) s.pt (absW s)).2 := by
+  unfold callBlock Spec.call envOf absW
+  simp only []
+  constructor <;> trivial
+
+@[simp] theorem ctxOf_callBlock (blk : Nat) (s : PState) : ctxOf (callBlock E blk s).2 = ctxOf s :=
+  ctxOf_eq (by simp) (by simp)
+@[simp] theorem envOf_callBlock (blk : Nat) (s : PState) : envOf (callBlock E blk s).2 = envOf s := by simp [envOf]
+@[simp] theorem ctxOf_read (s : PState) : ctxOf (read E s) = ctxOf s := ctxOf_eq (by simp) (by simp)
+@[simp] theorem ctxOf_failAt (s : PState) (b : Bool) (p : Pos) (w : String) : ctxOf (failAt s b p w) = ctxOf s :=
+  ctxOf_eq (by simp) (by simp)
+
+theorem matchOne_spec (s : PState) (want : String) :
+    abs (matchOne E s want) =
+      (let a := Spec.advance E (ctxOf s) s.pt (absW s)
+       .ok (.bytes (Spec.slice E s.pt a.1)) a.1 (envOf s) a.2) := by
+  have h := read_advance E s
+  unfold matchOne
+  simp only [abs, ← h, absW_failAt, envOf_failAt, envOf_read, sliceFrom, Spec.slice, failAt.pt]
+
+end
 end RT
 end PV
